@@ -424,6 +424,54 @@ class Interp:
     def fresh(self) -> int:
         return next(self._ids)
 
+    def instance_table(self, ci: ClassInfo, attr: str):
+        """[(key term, callable term)] of `self.<attr> = {K: self.method | function, ...}` assigned exactly once, in __init__,
+        and never changed by the class (no second assignment, no item store, no mutator call); else None."""
+        cache = self.__dict__.setdefault("_instance_tables", {})
+        k = (ci.qualname, attr)
+        if k in cache:
+            return cache[k]
+        cache[k] = None
+        init = ci.methods.get("__init__")
+        if init is None or ci.qualname in DISPATCH_BY_RULE:
+            return None
+        node = None
+        for m in ci.methods.values():
+            for x in ast.walk(m):
+                tgt = None
+                if isinstance(x, ast.Assign):
+                    tgt = x.targets
+                elif isinstance(x, (ast.AugAssign, ast.AnnAssign)):
+                    tgt = [x.target]
+                for t_ in tgt or []:
+                    if isinstance(t_, ast.Attribute) and t_.attr == attr and isinstance(t_.value, ast.Name) and t_.value.id == "self":
+                        if node is not None or m is not init or not isinstance(x, ast.Assign) or not isinstance(x.value, ast.Dict):
+                            return None
+                        node = x.value
+                    if isinstance(t_, ast.Subscript) and isinstance(t_.value, ast.Attribute) and t_.value.attr == attr:
+                        return None
+                if isinstance(x, ast.Call) and isinstance(x.func, ast.Attribute) and x.func.attr in MUTATORS \
+                        and isinstance(x.func.value, ast.Attribute) and x.func.value.attr == attr:
+                    return None
+                if isinstance(x, ast.Delete):
+                    for t_ in x.targets:
+                        if isinstance(t_, ast.Subscript) and isinstance(t_.value, ast.Attribute) and t_.value.attr == attr:
+                            return None
+        if node is None or not node.keys or any(kk is None for kk in node.keys):
+            return None
+        mod = self.repo.fn_home.get(id(init), ci.module)
+        fr = _Frame(self, mod, init, ci, Record(), f"{ci.qualname}.__init__", 0, ())
+        st = State({"self": param("self")}, {}, ())
+        items = []
+        for kk, vv in zip(node.keys, node.values):
+            kt, vt = fr.eval(kk, st), fr.eval(vv, st)
+            if kt.op not in ("const", "enum") or not (vt.op in ("func", "lambda") or
+                                                       (vt.op == "attr" and vt.a[0] == param("self") and vt.a[1] in ci.methods)):
+                return None
+            items.append((kt, vt))
+        cache[k] = items
+        return items
+
     def computed_table(self, mod: ModuleInfo, name: str) -> Optional[T]:
         """`NAME = build(ROWS, ...)` at module level - a table computed once by a package function from other module-level
         tables: the dict it evaluates to (constant keys), or None.  The module must not change NAME afterwards."""
@@ -873,7 +921,7 @@ def _reached_object(t: "T") -> bool:
 
 
 def _const_tree(t: "T") -> bool:
-    if t.op == "const":
+    if t.op in ("const", "class", "func"):       # (enum members are not: loops over members are judged as loops, C11)
         return True
     if t.op in ("tuple", "list"):
         return all(_const_tree(x) for x in t.a[0])
@@ -911,6 +959,10 @@ API_CLASSES = frozenset({
     "pykdebugparser.kd_buf_parser.KdBufParser", "pykdebugparser.traces_parser.TracesParser",
     "pykdebugparser.callstacks_parser.CallstacksParser", "pykdebugparser.pykdebugparser.PyKdebugParser",
 })
+
+
+# Classes whose dispatch tables are judged as tables by the rules themselves (C04 reads qualifiers_actions row by row)
+DISPATCH_BY_RULE = frozenset({"pykdebugparser.traces_parser.TracesParser"})
 
 
 class _Terminated(Exception):
@@ -1343,6 +1395,13 @@ class _Frame:
                 elif isinstance(n, ast.Call) and isinstance(n.func, ast.Attribute) and n.func.attr in MUTATORS \
                         and isinstance(n.func.value, ast.Name):
                     indirect.append(n.func.value.id)
+                elif isinstance(n, ast.Call) and isinstance(n.func, ast.Attribute) and n.func.attr in MUTATORS \
+                        and isinstance(n.func.value, (ast.Subscript, ast.Attribute)):
+                    root = n.func.value
+                    while isinstance(root, (ast.Attribute, ast.Subscript)):
+                        root = root.value
+                    if isinstance(root, ast.Name):
+                        indirect.append(root.id)          # d[k].append(x): d changes through its item
                 elif isinstance(n, (ast.Attribute, ast.Subscript)) and isinstance(n.ctx, ast.Store):
                     root = n
                     while isinstance(root, (ast.Attribute, ast.Subscript)):
@@ -1375,7 +1434,7 @@ class _Frame:
                 seen.append(n)
         return seen
 
-    def _run_loop(self, kind, s, st, iter_term, body, orelse, target=None, test_node=None):
+    def _run_loop(self, kind, s, st, iter_term, body, orelse, target=None, test_node=None, elem_map=None):
         lid = self.I.fresh()
         lr = LoopRec(lid, kind, iter_term, None, self.qualname, s.lineno, parent=self.loops[-1] if self.loops else None)
         lr.iter_path = getattr(self, "_pending_iter_path", None) if kind == "for" else None
@@ -1408,7 +1467,7 @@ class _Frame:
         if target is not None:
             elem = T("elem", (iter_term, lid))
             lr.target = elem
-            self.bind(target, elem, body_st, s, record=False)
+            self.bind(target, elem if elem_map is None else elem_map(elem), body_st, s, record=False)
         entry_len = len(body_st.pc)
         out = self.exec_block(body, body_st)
         end = self.seq()
@@ -1468,6 +1527,18 @@ class _Frame:
 
     def s_For(self, s, st):
         it = self.eval(s.iter, st)
+        if it.op == "new":
+            # `for x in obj` with a helper class whose __iter__ is a one-loop generator: the generator expression it equals
+            f_ = self.repo.lookup(it.a[0])
+            if f_ and f_[0] == "class" and "__iter__" in f_[2].methods:
+                g_ = self._generator_as_comp(f_[2].module, f_[2].methods["__iter__"], (it,), (), st, cls=f_[2])
+                if g_ is not None:
+                    it = g_
+                    st.env[f"__it{id(s)}"] = g_
+                    import copy
+                    s2 = copy.copy(s)
+                    s2.iter = ast.copy_location(ast.Name(id=f"__it{id(s)}", ctx=ast.Load()), s.iter)
+                    s = s2
         if unrollable(s) or (not s.orelse and _unrollable_body(s)):
             items = it
             if not unrollable(s):
@@ -1502,6 +1573,13 @@ class _Frame:
                                 and len(found[2].keys) <= 64 and all(k is not None and _literal_seq(k) for k in found[2].keys) \
                                 and all(_literal_seq(v) for v in found[2].values):
                             return self.eval(found[2], st)
+                        if found and found[0] == "const" and isinstance(found[2], ast.Dict) and found[2].keys \
+                                and len(found[2].keys) <= 16 and all(k is not None and _literal_seq(k) for k in found[2].keys) \
+                                and all(_table_row(v, False) for v in found[2].values) and self.depth < self.I.inline_depth \
+                                and self._spec_table_row(t_.a[0], found[2].keys[0].value) is not None:
+                            # a short module-level table from constants to functions / classes that nothing changes
+                            return T("dict", (tuple((const(k.value), self._spec_table_row(t_.a[0], k.value))
+                                                    for k in found[2].keys),))
                     return None
                 if items.op == "call" and items.a[0].op == "attr" and items.a[0].a[1] in ("items", "values", "keys") \
                         and not items.a[1] and table_dict(items.a[0].a[0]) is not None:
@@ -1516,6 +1594,10 @@ class _Frame:
                         and (isinstance(s.iter, ast.Name) or (isinstance(s.iter, ast.Tuple) and len(s.iter.elts) <= 8
                                                               and all(isinstance(e, ast.Tuple) for e in s.iter.elts))):
                     pass            # a local tuple literal (immutable): one copy of the body per item, whatever the items are
+                elif items.op == "list" and 0 < len(items.a[0]) <= 8 and not any(i.op == "star" for i in items.a[0]) \
+                        and isinstance(s.iter, ast.Name) and not any(
+                            isinstance(x, ast.Name) and x.id == s.iter.id for b_ in s.body for x in ast.walk(b_)):
+                    pass            # a short list literal the body never mentions (it cannot change under the loop)
                 elif module_table:
                     pass
                 elif not (items.op in ("tuple", "list") and items.a[0] and len(items.a[0]) <= 64 and all(_const_tree(i) for i in items.a[0])):
@@ -1557,6 +1639,42 @@ class _Frame:
         ds = self._desugar_for(s, it, st)
         if ds is not None:
             return self.exec_block(ds, st)
+        if it.op == "comp" and it.a[0] in ("list", "gen") and len(it.a[2]) == 1 and not it.a[2][0][2] \
+                and not isinstance(s.iter, (ast.ListComp, ast.GeneratorExp)):
+            # `pairs = [f(x) for x in xs]` ... `for a, b in pairs:` visits xs once, in order, with (a, b) = f(x)
+            src = self.I.__dict__.get("_comp_src", {}).get(it)
+            if src is not None and not s.orelse:
+                # re-interpret the comprehension's own source as the loop header (its reads and calls then belong to this loop)
+                import copy
+                cn, cenv, cmod, ccls = src
+                uid = self.I.fresh()
+                g = cn.generators[0]
+                tnames = {x.id for x in ast.walk(g.target) if isinstance(x, ast.Name)}
+                fr_src = _Frame(self.I, cmod, None, ccls, Record(), f"{cmod.name}.<comprehension>", self.depth, self.stack)
+                src_state = State(dict(cenv), {}, ())
+
+                class _Ren(ast.NodeTransformer):
+                    def visit_Name(_self, x):
+                        if x.id in tnames:
+                            return ast.copy_location(ast.Name(id=f"__ct{uid}_{x.id}", ctx=x.ctx), x)
+                        new_id = f"__cv{uid}_{x.id}"
+                        if new_id not in st.env:
+                            st.env[new_id] = fr_src.eval(ast.Name(id=x.id, ctx=ast.Load()), src_state)
+                        return ast.copy_location(ast.Name(id=new_id, ctx=ast.Load()), x)
+                tgt2 = _Ren().visit(copy.deepcopy(g.target))
+                iter2 = _Ren().visit(copy.deepcopy(g.iter))
+                elt2 = _Ren().visit(copy.deepcopy(cn.elt))
+                loop = ast.For(target=tgt2, iter=iter2, body=[ast.Assign(targets=[s.target], value=elt2)] + list(s.body), orelse=[])
+                for x in ast.walk(loop):
+                    if not hasattr(x, "lineno"):
+                        ast.copy_location(x, s)
+                ast.fix_missing_locations(loop)
+                return self.exec_block([loop], st)
+            evar, inner, _ = it.a[2][0]
+            elt = it.a[1]
+            self._pending_iter_path = None
+            return self._run_loop("for", s, st, inner, s.body, s.orelse, target=s.target,
+                                  elem_map=lambda e, elt=elt, evar=evar: subst(elt, {evar: e}))
         self._pending_iter_path = self.path_of(s.iter, st)
         return self._run_loop("for", s, st, it, s.body, s.orelse, target=s.target)
 
@@ -1829,6 +1947,12 @@ class _Frame:
                 return items[idx.a[0]]
         if v.op == "ite" and n_targets is not None:
             return T("ite", (v.a[0], self.index_term(v.a[1], idx, n_targets), self.index_term(v.a[2], idx, n_targets)))
+        if v.op == "slice" and len(v.a) == 3 and idx.op == "const" and isinstance(idx.a[0], int) and idx.a[0] >= 0 \
+                and n_targets is not None and v.a[1] in (NONE, const(0)) and v.a[2].op == "const" \
+                and isinstance(v.a[2].a[0], int) and n_targets == v.a[2].a[0] and idx.a[0] < n_targets \
+                and v.a[0].op == "attr" and v.a[0].a[1] == "values":
+            # a, b = words[:2] with `words` the four-word tuple of a record: a = words[0], b = words[1]
+            return T("sub", (v.a[0], idx))
         return T("sub", (v, idx))
 
     def effect(self, kind, base, key, value, args, st, node, aug=None, aug_val=None, path=None):
@@ -1951,6 +2075,14 @@ class _Frame:
 
     def e_Attribute(self, n, st):
         base = self.eval(n.value, st)
+        if base.op == "new" and isinstance(n.value, ast.Name) and n is not getattr(self, "_callee", None) \
+                and n.value.id in st.env and st.env[n.value.id] == base:
+            f_ = self.repo.lookup(base.a[0])
+            if f_ and f_[0] == "class" and n.attr in f_[2].methods and not f_[2].is_dataclass:
+                # a bound method of a local helper object taken as a VALUE (stored in a table, handed to a call): whoever holds
+                # it can change the object at any time - from here on nothing is known about the object's fields
+                st.env[n.value.id] = T("new", (base.a[0], tuple((k, T("unknown", (f"escaped:{n.value.id}.{k}",)))
+                                                                 for k, _ in base.a[1])))
         return self.attr(base, n.attr, st, n)
 
     def attr(self, base: T, name: str, st: State, node=None) -> T:
@@ -2114,6 +2246,28 @@ class _Frame:
         self.rec.pops.append(POp("sub", base, idx, st.pc, self.loops, self.trys, self.seq(), self.qualname, n.lineno,
                                  n.col_offset, self.path_of(n.value, st)))
         return key
+
+    def _dispatch_call(self, items, key: T, args: tuple, kwargs: tuple, st: State, node) -> T:
+        """table[key](args) as the chain `m1(args) if key == K1 else m2(args) if key == K2 else ...`: every alternative is
+        interpreted under its own condition, the states are merged."""
+        base_pc = st.pc
+        cur = st.copy()
+        done = []
+        for k, v in items:
+            cond = T("cmp", ("==", key, k))
+            sa = cur.copy()
+            sa.pc = cur.pc + ((cond, True),)
+            r = self.call(v, args, kwargs, sa, node)
+            done.append((cond, r, sa, cur.pc))
+            nb = cur.copy()
+            nb.pc = cur.pc + ((cond, False),)
+            cur = nb
+        res_t, res_s = T("unknown", ("no-such-key",)), cur
+        for cond, r, sa, pc0 in reversed(done):
+            res_s = merge(sa, res_s, cond, pc0)
+            res_t = r if r == res_t else T("ite", (cond, r, res_t))
+        st.env, st.heap, st.pc = res_s.env, res_s.heap, base_pc
+        return res_t
 
     def _fold_isinstance(self, x: T, c: T) -> Optional[bool]:
         """isinstance(x, C) when the shape of the term decides it (a literal, an object made by a known constructor, a
@@ -2580,6 +2734,21 @@ class _Frame:
         v = self.eval(n.value, st)
         if self._expand_generator(v, st):
             return T("unknown", ("sent",))
+        if v.op == "call" and v.a[0].op == "builtin" and v.a[0].a[0] in ("map", "filter", "iter") and not v.a[2] \
+                and not getattr(n, "_as_loop", False):
+            # the operand EVALUATES to a lazy pipeline (a helper returned `map(decode, iter(read, b''))`): the same loop as
+            # when it is written in place
+            uid = self.I.fresh()
+            st.env[f"__yfv{uid}"] = v
+            loop = ast.For(target=ast.Name(id=f"__yf{uid}", ctx=ast.Store()), iter=ast.Name(id=f"__yfv{uid}", ctx=ast.Load()),
+                           body=[ast.Expr(value=ast.Yield(value=ast.Name(id=f"__yf{uid}", ctx=ast.Load())))], orelse=[])
+            for x in ast.walk(loop):
+                ast.copy_location(x, n)
+            ast.fix_missing_locations(loop)
+            out = self.exec_block([loop], st)
+            if out is not None:
+                st.env, st.heap, st.pc = out.env, out.heap, out.pc
+            return T("unknown", ("sent",))
         self.rec.returns.append(Ret("yield_from", v, st.pc, self.loops, self.seq(), self.qualname, n.lineno))
         return T("unknown", ("sent",))
 
@@ -2714,6 +2883,11 @@ class _Frame:
         elt = elts[0] if len(elts) == 1 else T("tuple", (elts,))
         res = T("comp", (kind, elt, tuple(gens)))
         self.rec.loops[cid].term = res
+        if kind in ("list", "gen") and len(n.generators) == 1 and not n.generators[0].ifs \
+                and not any(isinstance(x, (ast.Lambda, ast.ListComp, ast.GeneratorExp, ast.SetComp, ast.DictComp, ast.NamedExpr,
+                                           ast.Yield, ast.YieldFrom, ast.Await)) for x in ast.walk(n) if x is not n):
+            # remembered so that a loop over this value elsewhere can be interpreted as the loop over its source
+            self.I.__dict__.setdefault("_comp_src", {})[res] = (n, dict(st.env), self.mod, self.self_cls)
         return res
 
     def e_ListComp(self, n, st):
@@ -2730,7 +2904,10 @@ class _Frame:
 
     # --------------------------------------------------------------------- calls
     def e_Call(self, n, st):
+        prev_callee = getattr(self, "_callee", None)
+        self._callee = n.func
         func = self.eval(n.func, st)
+        self._callee = prev_callee
         args: List[T] = []
         for a in n.args:
             if isinstance(a, ast.Starred):
@@ -2835,6 +3012,12 @@ class _Frame:
                         if mval == args[0].a[0]:
                             return T("enum", (ci.qualname, mname))
             return opaque
+        # ---- a dispatch table of the object: self.TABLE[key](args) with TABLE = {K1: self.m1, ...} set once in __init__
+        if func.op == "sub" and func.a[0].op == "attr" and func.a[0].a[0] == param("self") and self.self_cls is not None \
+                and func.a[1].op != "const" and not any(a.op == "star" for a in args) and not any(k == "**" for k, _ in kwargs):
+            items = self.I.instance_table(self.self_cls, func.a[0].a[1])
+            if items:
+                return self._dispatch_call(items, func.a[1], args, kwargs, st, node)
         # ---- package functions
         if func.op == "func":
             found = self.repo.lookup(func.a[0])
@@ -2888,6 +3071,17 @@ class _Frame:
                             st.env[root_.id] = rf           # the method changed its object: the caller's name sees it
                         self._recv_final = None
                         return r
+            if recv.op == "class" and ".trace_handlers." in recv.a[0]:
+                # an alternative constructor of a result class: `DyldUuidMapA.from_events([e])` (classmethod / staticmethod)
+                f_ = self.repo.lookup(recv.a[0])
+                if f_ and f_[0] == "class" and name in f_[2].methods:
+                    decos = {ast.unparse(d) for d in f_[2].methods[name].decorator_list}
+                    if decos & {"classmethod", "staticmethod"}:
+                        r = self.inline(f_[2].module, f_[2].methods[name], f_[2], args, kwargs, st, f"{f_[2].qualname}.{name}",
+                                        recv=recv)
+                        self._recv_final = None
+                        if r is not None:
+                            return r
             if recv.op == "global" and recv.a[0].startswith("pykdebugparser."):
                 inst = self._singleton_instance(recv.a[0])
                 if inst is not None:
@@ -2909,6 +3103,19 @@ class _Frame:
                     # identified with earlier ones
                     st.heap[pth] = T("mut", (st.heap.get(pth, pth), name, args))
                 root = node.func.value if isinstance(node, ast.Call) and isinstance(node.func, ast.Attribute) else None
+                if isinstance(root, (ast.Subscript, ast.Attribute)):
+                    # d[k].append(x) on a local container d: d is not what it was (its item changed)
+                    base_ = root
+                    while isinstance(base_, (ast.Subscript, ast.Attribute)):
+                        base_ = base_.value
+                    if isinstance(base_, ast.Name) and base_.id in st.env:
+                        cur_ = st.env[base_.id]
+                        inner_ = cur_
+                        while inner_.op == "mut":
+                            inner_ = inner_.a[0]
+                        if inner_.op in ("dict", "list", "set") or (inner_.op == "call" and inner_.a[0].op in ("global", "builtin")
+                                                                       and not _reached_object(inner_)):
+                            st.env[base_.id] = T("mut", (cur_, f"item.{name}", (self.path_of(root, st),) + tuple(args)))
                 if isinstance(root, ast.Name) and root.id in st.env and recv.op not in ("param",) \
                         and st.env[root.id].op != "alias":
                     st.env[root.id] = T("mut", (recv, name, args) + ((kwargs,) if kwargs else ()))
@@ -3012,7 +3219,7 @@ class _Frame:
             return opaque
         return opaque
 
-    def _generator_as_comp(self, mod: ModuleInfo, fnode, args: tuple, kwargs: tuple, st: State) -> Optional[T]:
+    def _generator_as_comp(self, mod: ModuleInfo, fnode, args: tuple, kwargs: tuple, st: State, cls=None) -> Optional[T]:
         """A generator function whose body is one loop that yields under conditions,
 
             def picked(xs, k):
@@ -3025,6 +3232,7 @@ class _Frame:
             return None
         if any(a.op == "star" for a in args) or any(k == "**" for k, _ in kwargs):
             return None
+        mod = self.repo.fn_home.get(id(fnode), mod)
         body = [b for b in fnode.body if not (isinstance(b, ast.Expr) and isinstance(b.value, ast.Constant))]
         if len(body) != 1 or not isinstance(body[0], ast.For) or body[0].orelse:
             return None
@@ -3043,7 +3251,7 @@ class _Frame:
                                generators=[ast.comprehension(target=loop.target, iter=loop.iter, ifs=conds, is_async=0)])
         ast.copy_location(gen, loop)
         ast.fix_missing_locations(gen)
-        fr = _Frame(self.I, mod, fnode, None, self.rec, f"{mod.name}.{fnode.name}", self.depth + 1, self.stack + (id(fnode),),
+        fr = _Frame(self.I, mod, fnode, cls, self.rec, f"{mod.name}.{fnode.name}", self.depth + 1, self.stack + (id(fnode),),
                     base_pc=st.pc, base_loops=self.loops, base_trys=self.trys)
         cs = fr.bind_params({}, symbolic_missing=False, positional=tuple(args), kwargs=kwargs)
         cs.heap = st.heap
